@@ -423,14 +423,14 @@ func (e *Engine) expire(interval time.Duration, reporter func(error)) {
 	for {
 		// await next interval
 		verifAwait("expire.tick", e, func() bool { return verifReady("expire.tick", !e.tomb.Alive(), verifTickPending(e)) })
-		if verifBoth(!e.tomb.Alive(), verifTickPending(e)) {
-			return
-		}
+		verifPick("expire.tick", !e.tomb.Alive(), verifTickPending(e))
 		select {
 		case <-e.tomb.Dying():
+			verifTook("expire.tick", 1)
 			return
 		case <-ticker.C:
 		case <-verifTick(e):
+			verifTook("expire.tick", 2)
 		}
 
 		// get transaction
